@@ -10,7 +10,7 @@
 EXTENDS Integers, Sequences
 
 FnArity == [one |-> 0, two |-> 0,
-            id |-> 1, neg |-> 1, dbl |-> 1, inc |-> 1, step |-> 1, pos |-> 1, dsum |-> 1, loopinc |-> 1, dflt |-> 1,
+            id |-> 1, neg |-> 1, dbl |-> 1, inc |-> 1, step |-> 1, pos |-> 1, lg2 |-> 1, dsum |-> 1, loopinc |-> 1, dflt |-> 1,
             add |-> 2, sub |-> 2, mul |-> 2, sel |-> 2, cut |-> 2, cap |-> 2, swp |-> 2, kwo |-> 2,
             mad |-> 3]
 
@@ -23,6 +23,7 @@ FApply(fn, a) ==
       [] fn = "inc"  -> a[1] + 1
       [] fn = "step" -> IF a[1] > 2 THEN 1 ELSE 0
       [] fn = "pos"  -> IF a[1] >= 0 THEN a[1] + 1 ELSE 0      \* Python twin: >= against the literal 0, jumps AT the threshold
+      [] fn = "lg2"  -> 3 * a[1]               \* Python twin: x * math.log2(8.0), a library call on a constant
       [] fn = "dsum" -> a[1]                  \* a data set is represented by the sum of its entries
       [] fn = "loopinc" -> a[1] + 1           \* Python twin uses a while loop: outside every translator's subset
       [] fn = "dflt" -> 3 * a[1]              \* Python twin calls a helper leaving its defaulted parameter (3) unset
@@ -39,7 +40,7 @@ FApply(fn, a) ==
 \* functions whose Python twin no translator (symbolic, code generators, SBML) can represent
 Untranslatable == {"loopinc", "dsum"}
 \* functions a translator may either refuse or translate correctly (never translate wrongly)
-MaybeTranslatable == {"dflt", "cap", "kwo"}
+MaybeTranslatable == {"dflt", "cap", "kwo", "lg2"}
 
 FAdd(a, b) == a + b
 FMul(a, b) == a * b
